@@ -569,6 +569,33 @@ func run(line string) (out string) {
 				fails = append(fails, fmt.Sprintf("(message-not-a-fixpoint %d %s)", a.GetType(), hex.EncodeToString(mb)))
 			}
 		}
+		// an OPEN with one capability of every kind: serialises, parses back, re-serialises to the same octets; every capability
+		// reports the length it occupies
+		for _, om := range []*bgp.BGPMessage{bgp.NewTestBGPOpenMessage(), seeds.FullOpen()} {
+			n++
+			ob, err := om.Serialize()
+			if err != nil {
+				fails = append(fails, "(open-serialize-error 0)")
+				continue
+			}
+			for _, prm := range om.Body.(*bgp.BGPOpen).OptParams {
+				if pc, ok := prm.(*bgp.OptionParameterCapability); ok {
+					for _, c := range pc.Capability {
+						if cb, err := c.Serialize(); err != nil || len(cb) != c.Len() {
+							fails = append(fails, fmt.Sprintf("(capability-len-differs %d len=%d octets=%d)", c.Code(), c.Len(), len(cb)))
+						}
+					}
+				}
+			}
+			om2, err := bgp.ParseBGPMessage(ob)
+			if err != nil || om2 == nil {
+				fails = append(fails, fmt.Sprintf("(own-open-rejected 0 %s)", hex.EncodeToString(ob)))
+				continue
+			}
+			if ob2, err := om2.Serialize(); err != nil || !bytes.Equal(ob, ob2) {
+				fails = append(fails, fmt.Sprintf("(open-not-a-fixpoint 0 %s %s)", hex.EncodeToString(ob), hex.EncodeToString(ob2)))
+			}
+		}
 		if len(fails) > 0 {
 			return "fail " + strings.Join(fails, " ")
 		}
@@ -577,7 +604,7 @@ func run(line string) (out string) {
 		// the package's own rich test messages: OPEN with every capability, UPDATE with every attribute type and
 		// MP_REACH/MP_UNREACH for many families
 		var out []string
-		for _, m := range []*bgp.BGPMessage{bgp.NewTestBGPOpenMessage(), bgp.NewTestBGPUpdateMessage()} {
+		for _, m := range []*bgp.BGPMessage{bgp.NewTestBGPOpenMessage(), bgp.NewTestBGPUpdateMessage(), seeds.FullOpen()} {
 			if b, err := m.Serialize(opts(false, false, true)); err == nil {
 				out = append(out, hex.EncodeToString(b))
 			}
